@@ -238,6 +238,41 @@ pub fn shard_run(tier: &str, seed: u64, shard: Shard) -> ShardOut {
             }
         }
     }
+    // ---- many clients on one long-lived server: client A acts, more than a thousand other clients
+    // act once each, A acts again: A is answered as if the others had not been there
+    if shard.mine(2) {
+        use crate::subject::Kind;
+        let n_others = if thorough { 5000 } else { 1100 };
+        for kind in [Kind::MEM_LIB, Kind::SQL_LIB, Kind::MEM_HTTP] {
+            let Ok(mut subj) = Subject::new(kind, Config::default()) else { continue };
+            let a = Rng::new(seed).fork(0xA11).uuid();
+            let Resp::AddOk { vid: v1, .. } = subj.exec(a, &Req::AddVersion { parent: Uuid::nil(), data: b"a-1".to_vec() }) else { continue };
+            let mut r = Rng::new(seed).fork(0xA12);
+            for i in 0..n_others {
+                let c = r.uuid_any();
+                let resp = subj.exec(c, &Req::AddVersion { parent: Uuid::nil(), data: format!("other-{i}").into_bytes() });
+                cov.evaluations += 1;
+                if !matches!(resp, Resp::AddOk { .. }) {
+                    out.found.push(Found { property: "C09".into(), signature: "C09:many clients".into(), msg: format!("[{}] the first AddVersion of client #{i} of {n_others} (a never-seen client, nil parent) was answered {}", kind.name(), resp.short()), replay: json!({"origin": "c09-many-clients", "case": 0}) });
+                    out.cov = cov;
+                    return out;
+                }
+            }
+            let after = [subj.exec(a, &Req::AddVersion { parent: v1, data: b"a-2".to_vec() }), subj.exec(a, &Req::GetChild { parent: Uuid::nil() }), subj.exec(a, &Req::GetChild { parent: v1 })];
+            cov.hit(format!("many-clients:{}:{}", kind.name(), if n_others > 1024 { ">1024" } else { "few" }));
+            let ok = matches!(&after[0], Resp::AddOk { .. }) && matches!(&after[1], Resp::Found { vid, data, .. } if *vid == v1 && data == b"a-1") && matches!((&after[0], &after[2]), (Resp::AddOk { vid: v2, .. }, Resp::Found { vid, parent, data }) if vid == v2 && *parent == v1 && data == b"a-2");
+            if !ok {
+                out.found.push(Found {
+                    property: "C09".into(),
+                    signature: "C09:many clients".into(),
+                    msg: format!("[{}] client A added a version, {n_others} other clients added one version each, then A's AddVersion on its own latest version / GetChildVersion(nil) / GetChildVersion(latest) were answered {} / {} / {} (alone: accepted / its first version / its second version)", kind.name(), after[0].short(), after[1].short(), after[2].short()),
+                    replay: json!({"origin": "c09-many-clients", "case": 0}),
+                });
+                out.cov = cov;
+                return out;
+            }
+        }
+    }
     out.cov = cov;
     out
 }
